@@ -107,7 +107,11 @@ func BuildJPEG(lead string, segs []JSeg, rng *rand.Rand, embeds map[int][]byte) 
 	for i, s := range segs {
 		out = append(out, 0xFF, jpegMarker[s.Mk])
 		out = append(out, byte((s.Plen+2)>>8), byte(s.Plen+2))
-		out = append(out, jpegPayload(s, rng, noFF, embeds[i])...)
+		pl := jpegPayload(s, rng, noFF, embeds[i])
+		if noFF && byte(s.Plen+2) == 0xFF && len(pl) > 0 && pl[0] >= 0xC0 {
+			pl[0] = 0x00 // the length field ends in 0xFF: keep (0xFF, payload[0]) from forming a marker outside an image
+		}
+		out = append(out, pl...)
 	}
 	for i := 0; i < 64; i++ {
 		b := byte(rng.Intn(256))
